@@ -69,7 +69,13 @@ def run_pipe(ctx, cases, shards=None, race=False, binname="pbfpipe", env=None):
             elif r.returncode == 3:
                 raise vlib.Infra("pbfpipe harness error:\n" + r.stderr[-2000:])
             else:
+                # whose panic is it?  the first non-runtime frame of the panicking goroutine decides
+                frames = [l.strip() for l in r.stderr.splitlines() if l and not l.startswith(("\t", " ")) and "(" in l
+                          and not l.startswith(("panic", "runtime.", "goroutine", "[signal", "created by"))]
+                if not frames or not frames[0].startswith("github.com/paulmach/osm"):
+                    raise vlib.Infra("pbfpipe crashed outside the library under test (harness bug?):\n" + r.stderr[-3000:])
                 first = [l for l in r.stderr.splitlines() if l.startswith("panic:") or "fatal error" in l]
+                first = [first[0] + " at " + frames[0]] if first else [frames[0]]
                 recs.append(synth(c, "crash: rc=%d %s" % (r.returncode, (first or [""])[0][:300])))
             rest = rest[len(got) + 1:]
         return recs
